@@ -252,10 +252,21 @@ func dfsPrefix(fixed []int, max int, f func(ch sched.Chooser) *sched.Outcome) (n
 // ---------------------------------------------------------------------------------------------
 // scenario tables
 
-func dup(m string) reqSpec       { return reqSpec{Method: m, Key: keyPool[0]} }
-func other(m string) reqSpec     { return reqSpec{Method: m, Key: keyPool[1]} }
-func keyless(m string) reqSpec   { return reqSpec{Method: m} }
-func safeKeyed(m string) reqSpec { return reqSpec{Method: m, Key: keyPool[0]} }
+func dup(m string) reqSpec           { return reqSpec{Method: m, Key: keyPool[0]} }
+func other(m string) reqSpec         { return reqSpec{Method: m, Key: keyPool[1]} }
+func keyless(m string) reqSpec       { return reqSpec{Method: m} }
+func safeKeyed(m string) reqSpec     { return reqSpec{Method: m, Key: keyPool[0]} }
+func keyedReq(m, key string) reqSpec { return reqSpec{Method: m, Key: key} }
+
+// nearPairs: a request with key A next to a request whose key is a different string very close
+// to A (other case, one character, prefix, extension). Different keys are independent.
+var nearPairs = []struct {
+	key    string
+	anyKey bool
+}{
+	{nearKeys[0], false}, {nearKeys[2], false}, {anyKeys[0], true}, {anyKeys[1], true},
+	{nearKeys[1], false}, {nearKeys[3], false}, {nearKeys[5], false}, {anyKeys[2], true},
+}
 
 var pairs = [][]reqSpec{
 	{dup("POST"), dup("POST")},
@@ -268,8 +279,9 @@ var pairs = [][]reqSpec{
 
 // dfs2 cases come in blocks of 36: 24 base variants (6 pairs x keep x failfirst), 8 with an
 // upstream middleware writing constant headers, 4 on the default memory storage (nil Storage:
-// only lock / handler boundaries). The block number shifts the response shapes.
-const dfs2Block = 36
+// only lock / handler boundaries), 4 with a near key (see nearPairs; the second half of nearPairs
+// in odd blocks). The block number shifts the response shapes.
+const dfs2Block = 40
 
 func dfs2Scenario(i int) *scenario {
 	blk, j := i/dfs2Block, i%dfs2Block
@@ -290,13 +302,21 @@ func dfs2Scenario(i int) *scenario {
 		}
 		sc.FailFirst = j >= 4 && j < 6
 		return sc
-	default:
+	case j < 36:
 		j -= 32
 		sc := &scenario{Reqs: pairs[[]int{0, 1, 5, 0}[j]], MemStore: true, ShapeBase: (j*2 + blk) % len(shapes)}
 		if j%2 == 1 {
 			sc.Keep = keepList
 		}
 		sc.FailFirst = j == 3
+		return sc
+	default:
+		j -= 36
+		np := nearPairs[(j+4*blk)%len(nearPairs)]
+		sc := &scenario{Reqs: []reqSpec{dup("POST"), keyedReq("POST", np.key)}, AnyKey: np.anyKey, ShapeBase: (j + blk) % len(shapes)}
+		if j%2 == 1 {
+			sc.Keep = keepList
+		}
 		return sc
 	}
 }
@@ -397,7 +417,8 @@ func runDFS3(e *ev.Env, w *witnesses) {
 func genScenario(r *gen.Rand, n int) *scenario {
 	unsafe := []string{"POST", "PUT", "PATCH", "DELETE"}
 	safe := []string{"GET", "HEAD", "OPTIONS"}
-	sc := &scenario{ShapeBase: r.Intn(len(shapes))}
+	anyKey := r.Chance(1, 3)
+	sc := &scenario{ShapeBase: r.Intn(len(shapes)), AnyKey: anyKey}
 	for i := 0; i < n; i++ {
 		switch {
 		case i < 2:
@@ -407,7 +428,12 @@ func genScenario(r *gen.Rand, n int) *scenario {
 			case 0:
 				sc.Reqs = append(sc.Reqs, dup(gen.Pick(r, unsafe)))
 			case 1:
-				sc.Reqs = append(sc.Reqs, other(gen.Pick(r, unsafe)))
+				// another key: as close to A as a different string can be
+				if anyKey && r.Bool() {
+					sc.Reqs = append(sc.Reqs, keyedReq(gen.Pick(r, unsafe), gen.Pick(r, anyKeys)))
+				} else {
+					sc.Reqs = append(sc.Reqs, keyedReq(gen.Pick(r, unsafe), gen.Pick(r, nearKeys)))
+				}
 			case 2:
 				sc.Reqs = append(sc.Reqs, keyless(gen.Pick(r, append(unsafe, safe...))))
 			case 3:
